@@ -1,6 +1,7 @@
 (* C12 - Path-variable commands obey list algebra.
    Property theorems only; every proof is a short appeal to Proofs/PathAlg.v. *)
 From Eupsv Require Import Base.Base Base.BaseLemmas Model.PathAlg Proofs.PathAlg.
+From Eupsv Require Import Model.PathAlgScript Proofs.PathAlgScript.
 
 (* Notation: [oldv var e] is the text of variable var in environment e (empty when unset),
    [elems d x] the non-empty elements of x split at delimiter d, [uniq] first-occurrence
@@ -249,6 +250,161 @@ Proof.
   unfold oldv. rewrite H4 by assumption. apply He.
 Qed.
 Print Assumptions sequence_keeps_dollar_free.
+
+(* ---- all sequences of such actions: ONE action executed many times while the environment changes.
+   A table that stays loaded keeps its actions; [run_script acts steps e] executes actions of the table
+   [acts] by index (forwards or in unsetup mode) interleaved with changes of the environment, and lists
+   the outcome of every step (Model/PathAlgScript.v). *)
+
+(* an action whose value holds references acts, in either mode, exactly as the action whose value is the
+   text the references expand to in the environment it is executed in *)
+Theorem reference_read_at_execution ap fwd var v x d e :
+  mem_ascii d v = false -> expand_var e v = Ok (Some x) -> wf_elem d x = true ->
+  env_prepend ap fwd var v d e = env_prepend ap fwd var x d e.
+Proof. exact (env_prepend_expanded ap fwd var v x d e). Qed.
+Print Assumptions reference_read_at_execution.
+
+(* setup adds the present expansion of the value: first for envPrepend, last for envAppend *)
+Theorem setup_adds_current_expansion ap d var v x e :
+  wf_delim d = true -> mem_ascii d v = false -> expand_var e v = Ok (Some x) -> wf_elem d x = true ->
+  no_dollar (oldv var e) = true ->
+  exists e', env_prepend ap true var v d e = Ok (Some e') /\
+    elems d (oldv var e') = (if ap then remove_str x (uniq (elems d (oldv var e))) ++ [x]
+                             else x :: remove_str x (uniq (elems d (oldv var e)))) /\
+    (forall k, k <> var -> alookup k e' = alookup k e).
+Proof.
+  intros Hd Hdv Hx Hw Ho.
+  destruct (env_prepend_ref_elems ap true var v x d e Hd Hdv Hx Hw Ho) as [e' [H1 [H2 [_ H4]]]].
+  exists e'. rewrite H2. split; [exact H1|]. split; [|exact H4].
+  destruct ap; [apply result_append|apply result_prepend].
+Qed.
+Print Assumptions setup_adds_current_expansion.
+
+(* unsetup removes exactly the element the action would add now: the present expansion of its value *)
+Theorem unsetup_removes_current_expansion ap d var v x e :
+  wf_delim d = true -> mem_ascii d v = false -> expand_var e v = Ok (Some x) -> wf_elem d x = true ->
+  no_dollar (oldv var e) = true ->
+  exists e', env_prepend ap false var v d e = Ok (Some e') /\
+    elems d (oldv var e') = remove_str x (uniq (elems d (oldv var e))) /\
+    (forall k, k <> var -> alookup k e' = alookup k e).
+Proof.
+  intros Hd Hdv Hx Hw Ho.
+  destruct (env_prepend_ref_elems ap false var v x d e Hd Hdv Hx Hw Ho) as [e' [H1 [H2 [_ H4]]]].
+  exists e'. rewrite H2. auto using result_reverse.
+Qed.
+Print Assumptions unsetup_removes_current_expansion.
+
+(* a script splits at any point: what the steps after the point do depends on the steps before it only
+   through the environment they left *)
+Theorem script_splits acts pre post e :
+  run_script acts (pre ++ post) e = run_script acts pre e ++ run_script acts post (script_env acts pre e).
+Proof. exact (run_script_app acts pre post e). Qed.
+Print Assumptions script_splits.
+
+(* ... so a step has no memory: after any history its outcome is that of the single step on the current
+   environment (the executions of an action before it, in whichever mode, leave nothing behind) *)
+Theorem script_step_memoryless acts pre s post e :
+  nth_error (run_script acts (pre ++ s :: post) e) (length pre)
+  = Some (exec_sstep acts s (script_env acts pre e)).
+Proof. exact (run_script_nth acts pre s post e). Qed.
+Print Assumptions script_step_memoryless.
+
+(* after ANY history (the same action executed forwards and backwards any number of times, other actions,
+   changes of the variables) unsetup of action i removes exactly the present expansion of its value *)
+Theorem unsetup_after_any_history acts pre i ap var v d x e0 :
+  let e := script_env acts pre e0 in
+  nth_error acts i = Some (PPrepend ap var v d) ->
+  wf_delim d = true -> mem_ascii d v = false -> expand_var e v = Ok (Some x) -> wf_elem d x = true ->
+  no_dollar (oldv var e) = true ->
+  exists e', nth_error (run_script acts (pre ++ [SExec i false]) e0) (length pre) = Some (Ok e') /\
+    elems d (oldv var e') = remove_str x (uniq (elems d (oldv var e))) /\
+    (forall k, k <> var -> alookup k e' = alookup k e).
+Proof.
+  intros e Hi Hd Hdv Hx Hw Ho.
+  destruct (unsetup_removes_current_expansion ap d var v x e Hd Hdv Hx Hw Ho) as [e' [H1 [H2 H3]]].
+  exists e'. split; [|split; assumption].
+  rewrite run_script_nth. fold e. cbn [exec_sstep]. rewrite Hi. unfold exec_pact. now rewrite H1.
+Qed.
+Print Assumptions unsetup_after_any_history.
+
+(* one action: set up with KEY = val1, KEY becomes val2, unsetup of the same action.  The element of val2
+   is what is removed; the element that the earlier setup added is not *)
+Theorem setup_change_unsetup ap opt d var key a b val1 val2 acts i e :
+  let v := a ++ c_dollar :: (if opt : bool then [c_quest] else []) ++ c_lbrace :: key ++ c_rbrace :: b in
+  let x1 := a ++ val1 ++ b in
+  let x2 := a ++ val2 ++ b in
+  nth_error acts i = Some (PPrepend ap var v d) ->
+  wf_delim d = true -> mem_ascii d v = false ->
+  mem_ascii c_dollar a = false -> mem_ascii c_dollar b = false -> key_ok key -> key <> var ->
+  alookup key e = Some val1 ->
+  wf_elem d x1 = true -> wf_elem d x2 = true -> no_dollar (oldv var e) = true ->
+  exists e1 e2,
+    run_script acts [SExec i true; SPut key val2; SExec i false] e = [Ok e1; Ok (aset key val2 e1); Ok e2] /\
+    elems d (oldv var e2)
+      = remove_str x2 (if ap then remove_str x1 (uniq (elems d (oldv var e))) ++ [x1]
+                       else x1 :: remove_str x1 (uniq (elems d (oldv var e)))) /\
+    (x1 <> x2 -> In x1 (elems d (oldv var e2))) /\
+    (forall k, k <> var -> k <> key -> alookup k e2 = alookup k e).
+Proof.
+  intros v x1 x2 Hi Hd Hdv Ha Hb Hk Hkv Hl Hw1 Hw2 Ho.
+  destruct (setup_change_unsetup_script ap opt d var key a b val1 val2 acts i e
+              Hi Hd Hdv Ha Hb Hk Hkv Hl Hw1 Hw2 Ho) as [e1 [e2 [R [E F]]]].
+  exists e1, e2. split; [exact R|]. split; [exact E|]. split; [|exact F].
+  intro N. rewrite E. now apply law_list_keeps.
+Qed.
+Print Assumptions setup_change_unsetup.
+
+(* the lift from single steps to scripts: a predicate kept by every step is kept by the script *)
+Theorem script_invariant (P : env -> Prop) acts steps :
+  (forall s e, In s steps -> P e -> P (env_after acts s e)) ->
+  forall e, P e -> P (script_env acts steps e).
+Proof. exact (script_env_inv P acts steps). Qed.
+Print Assumptions script_invariant.
+
+(* instance: well-formed actions of one table executed in any order and mode, any number of times, with
+   dollar-free changes of the environment in between, keep every variable dollar-free (the standing
+   hypothesis of the list laws, so the laws apply at every step of the script) *)
+Definition wf_sstep (s : sstep) : Prop :=
+  match s with
+  | SPut _ v => no_dollar v = true
+  | _ => True
+  end.
+
+Theorem script_keeps_dollar_free acts steps :
+  (forall a, In a acts -> wf_pact a) -> (forall s, In s steps -> wf_sstep s) ->
+  forall e, all_nodollar e -> all_nodollar (script_env acts steps e).
+Proof.
+  intros Ha Hs. apply script_invariant. intros s e Hin He. specialize (Hs s Hin).
+  unfold env_after. destruct s as [i fwd|k v|k]; cbn [exec_sstep].
+  - destruct (nth_error acts i) as [a|] eqn:Ei; [|exact He].
+    specialize (Ha a (nth_error_In _ _ Ei)). destruct a as [ap var v d| |]; try contradiction.
+    destruct Ha as [Hd Hv].
+    destruct (env_prepend_elems ap fwd var v d e Hd Hv (He var)) as [e1 [H1 [_ [H3 H4]]]].
+    unfold exec_pact. rewrite H1. intro k. destruct (str_eq_dec k var) as [->|N]; [assumption|].
+    unfold oldv. rewrite H4 by assumption. apply He.
+  - intro k'. destruct (str_eq_dec k' k) as [->|N].
+    + unfold oldv. rewrite alookup_aset_same. exact Hs.
+    + unfold oldv. rewrite alookup_aset_other by assumption. apply He.
+  - intro k'. destruct (str_eq_dec k' k) as [->|N].
+    + unfold oldv. now rewrite alookup_aremove_same.
+    + unfold oldv. rewrite alookup_aremove_other by assumption. apply He.
+Qed.
+Print Assumptions script_keeps_dollar_free.
+
+(* the scenario in small: PATH gets the tool of version 1.0, the version becomes 2.0 and the list is rolled
+   back to hold the 2.0 element, unsetup of the SAME action removes the 2.0 element; then forwards again *)
+Example script_one_action_four_times :
+  run_script [PPrepend false (lit "PATH") (lit "/opt/${V}/bin") ":"%char]
+    [SExec 0 true; SExec 0 false; SPut (lit "V") (lit "2.0"); SPut (lit "PATH") (lit "/opt/1.0/bin:/opt/2.0/bin:/usr/bin");
+     SExec 0 false; SExec 0 true]
+    [(lit "V", lit "1.0"); (lit "PATH", lit "/usr/bin")]
+  = [Ok [(lit "V", lit "1.0"); (lit "PATH", lit "/opt/1.0/bin:/usr/bin")];
+     Ok [(lit "V", lit "1.0"); (lit "PATH", lit "/usr/bin")];
+     Ok [(lit "V", lit "2.0"); (lit "PATH", lit "/usr/bin")];
+     Ok [(lit "V", lit "2.0"); (lit "PATH", lit "/opt/1.0/bin:/opt/2.0/bin:/usr/bin")];
+     Ok [(lit "V", lit "2.0"); (lit "PATH", lit "/opt/1.0/bin:/usr/bin")];
+     Ok [(lit "V", lit "2.0"); (lit "PATH", lit "/opt/2.0/bin:/opt/1.0/bin:/usr/bin")]].
+Proof. vm_compute. reflexivity. Qed.
 
 (* non-vacuity: the hypotheses are satisfiable on a non-trivial state *)
 Example c12_hypotheses_inhabited :
